@@ -2,6 +2,7 @@ package rules
 
 import (
 	"fmt"
+	"go/token"
 	"go/types"
 	"regexp"
 	"strings"
@@ -564,6 +565,9 @@ func ruleAppendFresh(r *core.Run, prop string) {
 				if _, isLoadOfAlloc := x.X.(*ssa.Alloc); isLoadOfAlloc {
 					base = x.X
 					continue
+				}
+				if _, isPtr := x.Type().Underlying().(*types.Pointer); isPtr || x.Op != token.MUL {
+					break // a pointer read from somewhere (a field of a record): that pointer is the shard
 				}
 				base = x.X // *ptr: the record behind the pointer; stores go through FieldAddr(ptr, ...)
 				continue
